@@ -381,7 +381,7 @@ func cmdCheck(args []string) {
 				os.Remove(path)
 				stubbed := harnessHasEnvStubs(spec, rep.Harness)
 				switch {
-				case strings.Contains(out, "VERIF-REPLAY-PASS") && strings.Contains(out, "REACHED "+s.Reach+";"):
+				case strings.Contains(out, "VERIF-REPLAY-PASS") && reachedNatively(out, s.Reach):
 					tracesValidated++
 				case stubbed:
 					// the native run uses the real environment (schema library, file system) where the symbolic
@@ -393,6 +393,7 @@ func cmdCheck(args []string) {
 					// a sample that fails natively where the symbolic run passed is an encoding mismatch unless it is a known finding
 					if !violationKnownForHarness(known, id, rep.Harness) {
 						inconclusive[fmt.Sprintf("%s: sample model for %s behaves differently natively: %s", rep.Harness, s.Reach, firstLine(out))]++
+						fmt.Printf("diverging sample of %s (reach %s): %s\n  native output: %s\n", rep.Harness, s.Reach, renderModel(s.Model), strings.ReplaceAll(out, "\n", " | "))
 					}
 				}
 			}
@@ -460,6 +461,20 @@ func cleanupGen() {
 	for _, d := range genDirs {
 		os.RemoveAll(d)
 	}
+}
+
+// reachedNatively: does the "REACHED a;b;c;" line of a native replay list the witness id?
+func reachedNatively(out, id string) bool {
+	for _, l := range strings.Split(out, "\n") {
+		if strings.HasPrefix(l, "REACHED ") {
+			for _, x := range strings.Split(strings.TrimPrefix(l, "REACHED "), ";") {
+				if strings.TrimSpace(x) == id {
+					return true
+				}
+			}
+		}
+	}
+	return false
 }
 
 func fatal2(f string, a ...interface{}) {
